@@ -24,6 +24,9 @@ import (
 type actorOp struct {
 	Op string `json:"op"` // put-fresh | put-held | get | close | stats | cleanup | shutdown
 	B  int    `json:"b"`
+	// put-fresh: index into closeKinds (conn_kinds.go) - what the freshly dialled connection reports when
+	// it is closed; 0 = nil. Delays of the catalogue are dropped in this real-clock form (close_spin stands in).
+	Close int `json:"close,omitempty"`
 }
 
 type concCase struct {
@@ -85,8 +88,9 @@ func runConc(c concCase) concResult {
 		go func(a int) {
 			defer wg.Done()
 			held := map[int][]*fakeConn{} // by backend
-			fresh := func(b int) *fakeConn {
-				fc := &fakeConn{ID: int(atomic.AddInt64(&nextID, 1)), Backend: b, spin: c.Spin}
+			fresh := func(b, kind int) *fakeConn {
+				fc, _, _ := newConn(int(atomic.AddInt64(&nextID, 1)), b, closeKinds[kind], false) // fake kinds only: no peer, no error
+				fc.spin = c.Spin
 				fc.owner.Store(int32(a + 1))
 				mu.Lock()
 				res.conns = append(res.conns, fc)
@@ -105,7 +109,7 @@ func runConc(c concCase) concResult {
 					if hs := held[op.B]; op.Op == "put-held" && len(hs) > 0 {
 						fc, held[op.B] = hs[0], hs[1:]
 					} else {
-						fc = fresh(op.B)
+						fc = fresh(op.B, op.Close)
 					}
 					fc.owner.Store(0) // given up before the call: the pool may hand it out at once
 					call := atomic.AddInt64(&clock, 1)
@@ -387,7 +391,16 @@ func judge(sub *lab.SubCheck, c concCase, res concResult) (viol string, labels [
 			orphanSeen++
 			sub.Excluded("shutdown-put-orphan")
 		} else {
-			return fmt.Sprintf("after the final shutdown connection(s) %v are still open although the pool accepted them (put returned true) and never handed them out again%s", res.leaked, describeOps(res.ops)), nil
+			failing := ""
+			for _, fc := range res.conns {
+				if fc.closeFails() {
+					failing += fmt.Sprintf(" %d (%s)", fc.ID, fc.closeReport())
+				}
+			}
+			if failing != "" {
+				failing = "; connections of this history whose Close reports an error:" + failing
+			}
+			return fmt.Sprintf("after the final shutdown connection(s) %v are still open although the pool accepted them (put returned true) and never handed them out again%s%s", res.leaked, failing, describeOps(res.ops)), nil
 		}
 	}
 	if !orphanRegion {
@@ -407,6 +420,15 @@ func judge(sub *lab.SubCheck, c concCase, res concResult) (viol string, labels [
 	return "", labels
 }
 
+// genCloseKind: 65 % of freshly dialled connections close cleanly, the others report one of the
+// catalogue's errors from Close (and are closed all the same).
+func genCloseKind(rt *rapid.T) int {
+	if rapid.IntRange(0, 99).Draw(rt, "closekind") < 65 {
+		return kindClean
+	}
+	return rapid.IntRange(kindErrFirst, kindErrLast).Draw(rt, "errkind")
+}
+
 func genConc(rt *rapid.T) concCase {
 	c := concCase{Backends: rapid.IntRange(1, 2).Draw(rt, "backends"), MaxIdle: rapid.IntRange(0, 3).Draw(rt, "maxidle"),
 		Spin: rapid.SampledFrom([]int{0, 0, 50, 400}).Draw(rt, "spin")}
@@ -420,23 +442,24 @@ func genConc(rt *rapid.T) concCase {
 			k := rapid.IntRange(0, 99).Draw(rt, "kind")
 			switch {
 			case k < 25:
-				s = append(s, actorOp{"put-fresh", b})
+				s = append(s, actorOp{Op: "put-fresh", B: b, Close: genCloseKind(rt)})
 			case k < 40:
-				s = append(s, actorOp{"put-held", b})
+				// falls back to a fresh connection when the actor holds none at that point
+				s = append(s, actorOp{Op: "put-held", B: b, Close: genCloseKind(rt)})
 			case k < 70:
-				s = append(s, actorOp{"get", b})
+				s = append(s, actorOp{Op: "get", B: b})
 			case k < 78:
-				s = append(s, actorOp{"close", b})
+				s = append(s, actorOp{Op: "close", B: b})
 			case k < 88:
-				s = append(s, actorOp{"stats", b})
+				s = append(s, actorOp{Op: "stats", B: b})
 			case k < 93:
-				s = append(s, actorOp{"cleanup", b})
+				s = append(s, actorOp{Op: "cleanup", B: b})
 			default:
 				if shutdowns < 2 {
 					shutdowns++
-					s = append(s, actorOp{"shutdown", 0})
+					s = append(s, actorOp{Op: "shutdown", B: 0})
 				} else {
-					s = append(s, actorOp{"get", b})
+					s = append(s, actorOp{Op: "get", B: b})
 				}
 			}
 		}
@@ -448,7 +471,7 @@ func genConc(rt *rapid.T) concCase {
 func TestC20PoolConcurrent(t *testing.T) {
 	const name = "pool-concurrent-histories"
 	sub := lab.Sub(name, "rapid-drawn scripts for 2-16 actors (1-8 operations each over {put fresh, put held, get, close held, stats, cleanup, shutdown (at most 2)}), 1-2 backends, max_idle 0..3, executed on real threads released by a spin barrier against one pool "+
-		"(fake connections whose Close costs 0/50/400 busy iterations; the race detector is on for the package); oracle: an atomic owner mark on every connection (a get that returns a connection whose mark is set = two holders), a returned connection is not closed, "+
+		"(fake connections whose Close costs 0/50/400 busy iterations and, for 35 % of the freshly dialled ones, reports an error - TLS close_notify undeliverable, connection reset, use of closed connection, bare I/O error - while closing all the same; the race detector is on for the package); oracle: an atomic owner mark on every connection (a get that returns a connection whose mark is set = two holders), a returned connection is not closed, "+
 		"a refused put has closed its connection, Stats idle <= max_idle at every call, after a final quiescent shutdown every accepted and not re-issued connection is closed and Stats is 0/0, and the recorded call/return history is linearizable "+
 		"(porcupine) w.r.t. a specification that only states the property; non-trivial = some get returned a connection, or a shutdown ran concurrently with other actors")
 	sub.NontrivialFloor(0.50)
@@ -472,6 +495,15 @@ func TestC20PoolConcurrent(t *testing.T) {
 		}
 		if hit {
 			labels = append(labels, "get-hit")
+		}
+		sawErr := false
+		for _, fc := range res.conns {
+			if e, _ := fc.lastErr.Load().(string); e != "" {
+				sawErr = true
+			}
+		}
+		if sawErr {
+			labels = append(labels, "pool-saw-close-error")
 		}
 		if sd {
 			labels = append(labels, "concurrent-shutdown")
